@@ -70,6 +70,15 @@ func genGwScenario(r *vlib.Rand) GwScenario {
 			sc.GWs[i].Hosts = append(sc.GWs[i].Hosts, h)
 		}
 	}
+	// feature: one Gateway with two single-host servers (a / b), a VirtualService spanning both with a rule that is
+	// filtered out for the gateway, and one further VirtualService per host
+	directed := r.Chance(50)
+	if directed {
+		for i := range sc.GWs {
+			sc.GWs[i].Hosts = slices.DeleteFunc(sc.GWs[i].Hosts, func(h string) bool { return h == "a.example.com" || h == "b.example.com" })
+		}
+		sc.GWs = append([]GW{{Name: "ns/gw-a", Hosts: []string{"a.example.com"}}, {Name: "ns/gw-a", Hosts: []string{"b.example.com"}}}, sc.GWs...)
+	}
 	for i := range sc.GWs {
 		if len(sc.GWs[i].Hosts) == 0 {
 			sc.GWs[i].Hosts = []string{"only-" + strconv.Itoa(i) + ".example.com"}
@@ -81,12 +90,31 @@ func genGwScenario(r *vlib.Rand) GwScenario {
 	}
 	cx := Ctx{Port: 80, NS: "ns", Gateways: []string{"ns/gw-a"}, Labels: [][2]string{{"istio", "ingressgateway"}}}
 	nvs := 1 + r.Intn(4)
-	wantShared := r.Chance(60) // feature: the first VirtualService spans all servers and has a filtered rule
+	wantShared := directed || r.Chance(40) // feature: the first VirtualService spans servers and has a filtered rule
+	if directed {
+		nvs = 3 + r.Intn(2)
+	}
 	for i := 0; i < nvs; i++ {
 		v := GVS{}
+		if directed && (i == 1 || i == 2) {
+			// the per-host VirtualServices: one distinguishable conditional rule each
+			h := []string{"a.example.com", "b.example.com"}[i-1]
+			v.Hosts, v.Gateways = []string{h}, []string{"ns/gw-a"}
+			v.Rules = []Rule{{Matches: []Match{{Uri: &SM{K: 3, S: "/only-" + h[:1]}}}, Dests: []Dest{{Host: vlib.Pick(r, gHosts), Subset: "v" + strconv.Itoa(i), Weight: 100}}}}
+			if r.Chance(40) {
+				v.Rules = append(v.Rules, genRule(r, cx))
+			}
+			sc.VSs = append(sc.VSs, v)
+			continue
+		}
 		if wantShared && i == 0 {
-			v.Hosts = append(v.Hosts, allHosts...)
+			if directed && r.Chance(60) {
+				v.Hosts = []string{"a.example.com", "b.example.com"}
+			} else {
+				v.Hosts = append(v.Hosts, allHosts...)
+			}
 			v.Gateways = append(v.Gateways, names...)
+			v.Gateways = append(v.Gateways, "mesh")
 		} else {
 			for _, h := range allHosts {
 				if r.Chance(40) {
@@ -105,7 +133,7 @@ func genGwScenario(r *vlib.Rand) GwScenario {
 				v.Gateways = []string{vlib.Pick(r, names)}
 			}
 		}
-		if r.Chance(25) {
+		if r.Chance(25) && !slices.Contains(v.Gateways, "mesh") {
 			v.Gateways = append(v.Gateways, "mesh")
 		}
 		nr := 1 + r.Intn(3)
